@@ -180,6 +180,9 @@ def b_tuple(I, x=()):
 
 
 def b_list(I, x=()):
+    if isinstance(x, (LibFunc, Closure, Partial, BoundMethod, Composed)):
+        # a function is not iterable
+        raise PyRaise(ExcVal("TypeError", ("'function' object is not iterable",)))
     items = I.concrete_items(x)
     if items is None:
         if isinstance(x, GenV):
